@@ -200,7 +200,7 @@ fn lag(rng: &mut Rng, i: u64) -> String {
         1 => format!("part/{target}/{start}/w{win}"),
         2 => format!("parts/{target}/M{target}={start}/w{win}"),
         3 => format!("stream/{s0}/{sstart}/w{win}"),
-        _ => format!("streams/{s0}/M{s0}={sstart}/w{win}"),
+        _ => format!("stream/{s0}/{}/w{win}", sstart.saturating_sub(3)),
     };
     // the subscription stops at the pause point of its first batch; the write then broadcasts the whole log
     let mut sched = vec!["S".to_string(), format!("x{target}:0")];
@@ -212,7 +212,7 @@ fn lag(rng: &mut Rng, i: u64) -> String {
 }
 
 pub fn generate(rng: &mut Rng, thorough: bool) -> Vec<String> {
-    let (ns, nb, nl) = if thorough { (4000, 800, 40) } else { (500, 100, 8) };
+    let (ns, nb, nl) = if thorough { (4000, 800, 40) } else { (300, 60, 6) };
     let mut v = Vec::new();
     for i in 0..ns { v.push(small(rng, i)); }
     for i in 0..nb { v.push(batches(rng, i)); }
